@@ -209,4 +209,4 @@ def pkt_op(op, sid, pkt, cap=None, mode=0, mki_index=0, extra=0):
         n = None; ph = pkt
     if cap is None:
         cap = (n if n is not None else 0) + extra
-    return f"{op} {H(sid)} {H(mki_index)} {H(cap)} {H(mode)} | {ph}"
+    return f"{op} {H(sid)} {H(mki_index)} {H(max(cap, 0))} {H(mode)} | {ph}"
